@@ -131,6 +131,7 @@ int main(void) {
     int fd = mkstemp(path);
     if (fd < 0) { perror("mkstemp"); return 3; }
     close(fd);
+    verif_tmp_path = path;
     T = mk(0, 0, 0, 0, 0);
     reset_cur();
     while ((len = getline(&line, &cap, stdin)) > 0) {
